@@ -184,12 +184,49 @@ _ENV = None
 
 
 def _get_env(repo, check_id):
+    """Per-process Env.  A forked child re-uses the Env (and scratch workspace) it inherited: the
+    process that forks never executes a plan itself, so what it hands down is pristine."""
     global _ENV
-    if _ENV is None or _ENV.repo != repo or _ENV.ws._owner_pid != os.getpid():
+    if _ENV is None or _ENV.repo != repo:
         _ENV = Env(repo, known_signatures(check_id).keys())
     else:
         _ENV.known = set(known_signatures(check_id).keys())
     return _ENV
+
+
+def isolated(fn, *args):
+    """Run fn(*args) in a forked child and return its result.
+
+    Every batch of plans and every minimisation candidate runs in its own child, so process-global
+    state of the code under test (caches, class registries, sys.modules) never leaks from one
+    execution into another: a plan (plus its recorded prefix) is an exactly repeatable execution."""
+    import pickle
+    r, w = os.pipe()
+    pid = os.fork()
+    if pid == 0:
+        code = 0
+        try:
+            os.close(r)
+            try:
+                out = ("ok", fn(*args))
+            except BaseException as e:  # noqa
+                out = ("err", "".join(traceback.format_exception(type(e), e, e.__traceback__)))
+            with os.fdopen(w, "wb") as f:
+                pickle.dump(out, f, protocol=pickle.HIGHEST_PROTOCOL)
+        except BaseException:  # noqa
+            code = 3
+        finally:
+            os._exit(code)
+    os.close(w)
+    with os.fdopen(r, "rb") as f:
+        data = f.read()
+    os.waitpid(pid, 0)
+    if not data:
+        raise RuntimeError("isolated child died without a result")
+    kind, val = pickle.loads(data)
+    if kind == "err":
+        raise RuntimeError("in isolated child:\n" + val)
+    return val
 
 
 def run_one(mod, plan, env):
@@ -214,67 +251,116 @@ def plan_digest(plan):
     return hashlib.sha256(json.dumps(plan, sort_keys=True).encode()).hexdigest()
 
 
-def _worker_batch(check_id, verif_seed, indices, tier, repo, double_every, task_limit_s):
+def _batch_body(check_id, verif_seed, indices, tier, repo, task_limit_s):
     faulthandler.dump_traceback_later(task_limit_s, exit=True)
+    mod = load_check(check_id)
+    env = _get_env(repo, check_id)
+    out = {
+        "evaluations": 0, "plans": 0, "steps": 0, "sim_time": 0.0, "counters": {}, "keys": set(),
+        "samples": [], "violations": [], "known": [], "double_runs": 0, "double_mismatch": [],
+        "digests": [],
+    }
+    executed = []
+    for index in indices:
+        plan = plan_for(mod, verif_seed, index, tier)
+        res = run_one(mod, plan, env)
+        out["plans"] += 1
+        out["evaluations"] += res.evaluations
+        out["steps"] += res.steps
+        out["sim_time"] += res.sim_time
+        for k, v in res.counters.items():
+            out["counters"][k] = out["counters"].get(k, 0) + v
+        out["keys"] |= res.keys
+        out["digests"].append((index, plan_digest(plan)[:16], res.digest[:16]))
+        if len(out["samples"]) < 2 and res.sample is not None:
+            out["samples"].append(res.sample)
+        for k in res.known:
+            out["known"].append(k)
+        if res.violation is not None:
+            # the plans this child executed earlier are part of the failing execution
+            out["violations"].append({"index": index, "plan": plan, "violation": res.violation,
+                                      "prefix": executed})
+            break
+        executed.append(plan)
+    return out
+
+
+def _worker_batch(check_id, verif_seed, indices, tier, repo, double_every, task_limit_s):
+    # no watchdog is armed in this process: a faulthandler timer armed before fork() dead-locks the
+    # child's own dump_traceback_later(); the child arms one, and its death surfaces here as an error
     try:
-        mod = load_check(check_id)
-        env = _get_env(repo, check_id)
-        out = {
-            "evaluations": 0,
-            "plans": 0,
-            "steps": 0,
-            "sim_time": 0.0,
-            "counters": {},
-            "keys": set(),
-            "samples": [],
-            "violations": [],
-            "known": [],
-            "double_runs": 0,
-            "double_mismatch": [],
-            "digests": [],
-        }
-        for index in indices:
-            plan = plan_for(mod, verif_seed, index, tier)
-            res = run_one(mod, plan, env)
-            out["plans"] += 1
-            out["evaluations"] += res.evaluations
-            out["steps"] += res.steps
-            out["sim_time"] += res.sim_time
-            for k, v in res.counters.items():
-                out["counters"][k] = out["counters"].get(k, 0) + v
-            out["keys"] |= res.keys
-            out["digests"].append((index, plan_digest(plan)[:16], res.digest[:16]))
-            if len(out["samples"]) < 2 and res.sample is not None:
-                out["samples"].append(res.sample)
-            for k in res.known:
-                out["known"].append(k)
-            if double_every and index % double_every == 0:
-                plan2 = plan_for(mod, verif_seed, index, tier)
-                res2 = run_one(mod, plan2, env)
-                out["double_runs"] += 1
-                if plan_digest(plan2) != plan_digest(plan) or res2.digest != res.digest:
-                    out["double_mismatch"].append(index)
-            if res.violation is not None:
-                out["violations"].append({"index": index, "plan": plan, "violation": res.violation})
-                break
+        _get_env(repo, check_id)       # scratch workspace owned by this worker, inherited by children
+        out = isolated(_batch_body, check_id, verif_seed, indices, tier, repo, task_limit_s)
+        # determinism self-check: one batch in 16 is executed a second time in another pristine child
+        if double_every and not out["violations"] and (indices[0] // max(1, len(indices))) % 16 == 0:
+            again = isolated(_batch_body, check_id, verif_seed, indices, tier, repo, task_limit_s)
+            out["double_runs"] += len(indices)
+            if again["digests"] != out["digests"]:
+                bad = [a[0] for a, b in zip(out["digests"], again["digests"]) if a != b]
+                out["double_mismatch"].extend(bad or [indices[0]])
         return out
     finally:
-        faulthandler.cancel_dump_traceback_later()
+        pass
 
 
-def _worker_minimise(check_id, plan, signature, repo, budget, task_limit_s):
+def _seq_body(check_id, repo, plans, task_limit_s, keep_trace=False):
+    """Execute plans in order in this (fresh) process; report the outcome of the last one."""
     faulthandler.dump_traceback_later(task_limit_s, exit=True)
+    mod = load_check(check_id)
+    env = _get_env(repo, check_id)
+    env.known = set()
+    res = None
+    for plan in plans:
+        res = run_one(mod, plan, env)
+    return {"violation": res.violation, "digest": res.digest}
+
+
+_PROBE = None
+
+
+def probe(plan):
+    """For shrinkers: outcome of `plan` executed (after the current prefix) in a pristine child."""
+    return _PROBE(plan)
+
+
+class _Outcome:
+    def __init__(self, d):
+        self.violation = d["violation"]
+        self.digest = d["digest"]
+
+
+def _worker_minimise(check_id, plan, prefix, signature, repo, budget, task_limit_s):
+    global _PROBE
     try:
         mod = load_check(check_id)
-        env = _get_env(repo, check_id)
-        small = minimise(mod, plan, signature, env, budget)
-        res = run_one(mod, small, env)
-        if res.violation is None or res.violation["signature"] != signature:
+        _get_env(repo, check_id)
+
+        def outcome(plans):
+            return isolated(_seq_body, check_id, repo, plans, task_limit_s)
+
+        def fails(plans):
+            try:
+                o = outcome(plans)
+            except Exception:
+                return False
+            return o["violation"] is not None and o["violation"]["signature"] == signature
+
+        remaining = [budget]
+        if fails([plan]):
+            prefix = []
+        elif prefix and fails(prefix + [plan]):
+            prefix = ddmin(prefix, lambda p: fails(list(p) + [plan]), remaining)
+        else:
+            return plan, prefix, None, ""
+        _PROBE = lambda cand: _Outcome(outcome(prefix + [cand]))  # noqa
+        small = minimise(mod, plan, lambda cand: fails(prefix + [cand]), remaining)
+        o = outcome(prefix + [small])
+        if o["violation"] is None or o["violation"]["signature"] != signature:
             small = plan
-            res = run_one(mod, small, env)
-        return small, res.violation, res.digest
+            o = outcome(prefix + [small])
+        return small, prefix, o["violation"], o["digest"]
     finally:
-        faulthandler.cancel_dump_traceback_later()
+        _PROBE = None
 
 
 # --------------------------------------------------------------------------------------------
@@ -306,17 +392,8 @@ def ddmin(items, test, budget):
     return items
 
 
-def minimise(mod, plan, signature, env, budget=400):
-    """Shrink `plan` while execute() still yields the same violation signature."""
-    remaining = [budget]
-
-    def still_fails(candidate):
-        try:
-            res = run_one(mod, candidate, env)
-        except Exception:
-            return False
-        return res.violation is not None and res.violation["signature"] == signature
-
+def minimise(mod, plan, still_fails, remaining):
+    """Shrink `plan` while still_fails(candidate) (same violation signature, pristine process)."""
     if hasattr(mod, "shrink"):
         try:
             return mod.shrink(plan, still_fails, remaining)
@@ -345,7 +422,7 @@ def minimise(mod, plan, signature, env, budget=400):
 # replay files
 
 
-def write_replay(check_id, plan, violation, digest, tier, verif_seed):
+def write_replay(check_id, plan, violation, digest, tier, verif_seed, prefix=()):
     d = os.path.join(VERIF_DIR, "replays", check_id)
     os.makedirs(d, exist_ok=True)
     sig = hashlib.sha256(violation["signature"].encode()).hexdigest()[:10]
@@ -357,6 +434,7 @@ def write_replay(check_id, plan, violation, digest, tier, verif_seed):
         "violation": violation,
         "trace_digest": digest,
         "plan": plan,
+        "prefix": list(prefix),   # plans executed earlier in the same process (usually empty)
     }
     with open(path, "w", encoding="utf-8") as f:
         json.dump(doc, f, indent=1, sort_keys=True)
@@ -369,6 +447,8 @@ def replay(path, repo="/repo", verbose=True):
         doc = json.load(f)
     mod = load_check(doc["property"])
     env = Env(repo, ())  # known findings suppress nothing in replay
+    for p in doc.get("prefix", []):
+        run_one(mod, p, env)
     env.keep_trace = True
     res = run_one(mod, doc["plan"], env)
     want = doc["violation"]["signature"]
@@ -473,22 +553,23 @@ def run_check(check_id, tier="quick", verif_seed=1, repo="/repo", workers=None, 
                 continue
             seen.add(sig)
             try:
-                fut = pool.submit(_worker_minimise, check_id, v["plan"], sig, repo,
+                fut = pool.submit(_worker_minimise, check_id, v["plan"], v.get("prefix", []), sig, repo,
                                   getattr(mod, "SHRINK_BUDGET", 400), task_limit)
-                small, viol, dig = fut.result()
+                small, prefix, viol, dig = fut.result()
                 if viol is None:
-                    raise RuntimeError("violation vanished when re-executed in the worker")
+                    raise RuntimeError(f"violation {sig!r} vanished when its plan (with the plans executed before "
+                                       "it in the same process) was re-executed in a pristine process")
             except Exception as e:
                 harness_errors.append("minimise: " + repr(e))
                 continue
-            reports.append((dict(v, violation=viol), small, dig))
+            reports.append((dict(v, violation=viol), small, dig, prefix))
 
     exit_code = 0
     lines = []
-    for v, small, dig in reports:
+    for v, small, dig, prefix in reports:
         # confirmation: the minimised plan must fail the same way, with the same trace digest,
         # in a fresh interpreter
-        path = write_replay(check_id, small, v["violation"], dig, tier, verif_seed)
+        path = write_replay(check_id, small, v["violation"], dig, tier, verif_seed, prefix)
         proc = subprocess.run(
             [PYTHON, os.path.join(VERIF_DIR, "run.py"), "replay", path, "--repo", repo],
             capture_output=True, text=True, timeout=900,
